@@ -24,7 +24,7 @@ ASSUMPTIONS = [
     "payloads above 1 MiB are not exercised (Buffer cost grows quadratically with the message length)",
 ]
 SHARD_LIMIT = {"quick": 900, "thorough": 14400}
-FORMATS = [".fits", ".bin", "", ".x.gz", "a b", "<&>", ".fits.z", ".z"]  # *.z: INDI's convention for compressed payloads
+FORMATS = [".fits", ".bin", "", ".x.gz", "a b", "<&>", ".fits.z", ".z", ".f\u00efts\u2603"]  # *.z: INDI's convention for compressed payloads
 
 
 
@@ -132,6 +132,43 @@ def d1_driver_to_client(n, seed, delivery, fails, d, connect=None):
         errs = w.loop.collect_errors()
         if errs:
             fails.append(("loop-error", d + ",dir=driver-to-client", "n=%d: %r" % (n, [e.get("message") for e in errs][:2])))
+    finally:
+        w.close()
+
+
+@scenario
+def d1_element_added_later(n, seed, how, fails):
+    """the BLOB property is first defined with one element; the driver then shows a second one (re-definition with an
+    added member) and publishes a BLOB on it: the library Client must hold it"""
+    import copy
+
+    from mc.core import e2e
+
+    sp = copy.deepcopy(spec())
+    sp["groups"][0]["vectors"][0]["elements"][1]["enabled"] = False
+    w = e2e.World([sp], guard_buffers=True)
+    try:
+        c = w.make_client()
+        dev = w.devices[0]
+        dev.g.bl.a.value = blob_of(3, seed)
+        w.settle()
+        dev.g.bl.b.enabled = True
+        if how == "property-reenabled":
+            dev.g.bl.enabled = True  # re-sends the definition (now with B) and the update
+        else:
+            c.handshake()  # the client asks again and gets the definition with B
+        w.settle()
+        b = blob_of(n, seed)
+        dev.g.bl.b.value = b
+        dev.g.t.a.value = "after-blob"
+        w.settle()
+        dd = "element-added-by-redefinition,%s" % how
+        vec = c["DEV0"]["BL"]
+        el = vec["B"].value if "B" in vec else "<element unknown to the client>"
+        if el is None or isinstance(el, str) or bytes(el.binary) != b.binary or el.format != b.format:
+            fails.append(("payload-differs", dd, "n=%d: client has %r for the added element" % (n, el if el is None or isinstance(el, str) else (len(el.binary), el.format))))
+        if c["DEV0"]["T"]["A"].value != "after-blob":
+            fails.append(("traffic-after-blob-lost", dd, "n=%d: the ordinary update after the BLOB did not arrive" % n))
     finally:
         w.close()
 
@@ -555,6 +592,12 @@ def _run(shard, tier, seed, what, res, absorb):
                     d1_driver_to_client(n, seed, "whole", f, "delivery=whole,connect=%s-first" % order[0], connect=order)
                     absorb(f, dict(kind="d1", n=n, seed=seed, mode="whole", connect=list(order)))
                     res["executions"] += 1
+            for how in ("property-reenabled", "client-asks-again"):
+                for n in (4, 900):
+                    f = []
+                    d1_element_added_later(n, seed, how, f)
+                    absorb(f, dict(kind="added", n=n, seed=seed, how=how))
+                    res["executions"] += 1
             for damage in DAMAGED:
                 for n in (5, 700):
                     f = []
@@ -651,6 +694,8 @@ def _replay(rep):
         d2_policy_sequence(rep["n"], rep["seed"], rep["seq"], f)
     elif k == "largepaused":
         d2_large_paused(rep["n"], rep["seed"], f)
+    elif k == "added":
+        d1_element_added_later(rep["n"], rep["seed"], rep["how"], f)
     elif k == "damaged":
         d2_after_damaged_upload(rep["n"], rep["seed"], rep["damage"], f)
     elif k == "reuse":
